@@ -795,7 +795,12 @@ class _AugCanon(ast.NodeTransformer):
         if len(node.targets) == 1 and isinstance(node.targets[0], (ast.Name, ast.Attribute)) and isinstance(node.value, ast.BinOp) \
                 and isinstance(node.value.left, (ast.Name, ast.Attribute)) \
                 and ast.dump(node.value.left).replace('Load()', 'X') == ast.dump(node.targets[0]).replace('Store()', 'X').replace('Load()', 'X') \
-                and not isinstance(node.value.op, (ast.MatMult,)):
+                and not isinstance(node.value.op, (ast.MatMult,)) \
+                and not any(isinstance(y, (ast.List, ast.ListComp, ast.Tuple, ast.Dict, ast.Set)) or
+                            (isinstance(y, ast.Call) and isinstance(y.func, (ast.Name, ast.Attribute)) and
+                             (y.func.id if isinstance(y.func, ast.Name) else y.func.attr) in ('list', 'as_list', 'tuple', 'dict', 'set'))
+                            for y in ast.walk(node.value.right)):
+            # (with a container on the right the two spellings differ: `x += [..]` changes the object x names, `x = x + [..]` a copy)
             return ast.copy_location(ast.AugAssign(target=node.targets[0], op=node.value.op, value=node.value.right), node)
         return node
 
